@@ -90,7 +90,7 @@ pub fn prop(tier: Tier, seed: u64) -> Prop {
     // ---- (1) resize
     let algs = resize_algs();
     let n1 = (s + 1) as u64;
-    let dims = vec![n1, n1, n1, n1, algs.len() as u64, 4];
+    let dims = vec![n1, n1, n1, n1, algs.len() as u64, 6];
     let (d1, a1, b1) = (dims.clone(), algs.clone(), bes.clone());
     p.spaces.push(Space::new("resize: (sw,sh,dw,dh) in (0..S)^4 x 10 algorithms x crop (x pixel types x destination kinds x sentinels inside)", product(&dims), move |idx, ctx| {
         let mut d = [0usize; 6];
@@ -102,7 +102,10 @@ pub fn prop(tier: Tier, seed: u64) -> Prop {
             0 => (None, None, true),
             1 => (Some(Crop1 { start: 1.0, len: sw as f64 - 1.0 }), Some(Crop1 { start: 0.0, len: sh as f64 }), sw >= 2),
             2 => (Some(Crop1 { start: 0.25, len: sw as f64 - 0.5 }), Some(Crop1 { start: 0.5, len: sh as f64 - 0.5 }), sw >= 1 && sh >= 1),
-            _ => (Some(Crop1 { start: 0.0, len: sw as f64 + 1.0 }), Some(Crop1 { start: 0.0, len: sh as f64 }), false),
+            3 => (Some(Crop1 { start: 0.0, len: sw as f64 + 1.0 }), Some(Crop1 { start: 0.0, len: sh as f64 }), false),
+            // integer origin, size a fraction of a pixel larger than the destination (truncation traps)
+            4 => (Some(Crop1 { start: 0.0, len: dw as f64 + 0.5 }), Some(Crop1 { start: 0.0, len: dh as f64 + 0.25 }), dw >= 1 && dh >= 1 && dw as f64 + 0.5 <= sw as f64 && dh as f64 + 0.25 <= sh as f64),
+            _ => (Some(Crop1 { start: 1.0, len: dw as f64 + (2.0f64).powi(-20) }), Some(Crop1 { start: 0.0, len: dh as f64 }), dw >= 1 && dh >= 1 && 1.0 + dw as f64 + (2.0f64).powi(-20) <= sw as f64 && dh <= sh),
         };
         if d[5] != 0 && d[5] != 3 && !valid_crop {
             return;
